@@ -708,7 +708,15 @@ func (c *Client) receipts(ctx context.Context, url string, bm blockmap, start, l
 			return fmt.Errorf("rpc=%s %w", tag, resps[i].Error)
 		}
 	}
+	if uint64(len(resps)) != limit {
+		const tag = "eth_getBlockReceipts requested %d blocks got %d results"
+		return fmt.Errorf(tag, limit, len(resps))
+	}
 	for i := range resps {
+		if resps[i].Result == nil {
+			const tag = "eth_getBlockReceipts missing result for block %d"
+			return fmt.Errorf(tag, start+uint64(i))
+		}
 		if len(resps[i].Result) == 0 {
 			if b, ok := bm[start+uint64(i)]; ok && len(b.Txs) > 0 {
 				const tag = "eth_getBlockReceipts no receipts for block with transactions. num=%d txs=%d"
@@ -732,6 +740,10 @@ func (c *Client) receipts(ctx context.Context, url string, bm blockmap, start, l
 		}
 		b.Header.Hash.Write(resps[i].Result[0].BlockHash)
 		for j := range resps[i].Result {
+			if uint64(resps[i].Result[j].BlockNum) != blockNum || !bytes.Equal(resps[i].Result[j].BlockHash, resps[i].Result[0].BlockHash) {
+				const tag = "eth_getBlockReceipts receipts of several blocks in one result. num=%d other=%d"
+				return fmt.Errorf(tag, blockNum, resps[i].Result[j].BlockNum)
+			}
 			tx := b.Tx(uint64(resps[i].Result[j].TxIdx))
 			tx.PrecompHash.Write(resps[i].Result[j].TxHash)
 			tx.Type.Write(byte(resps[i].Result[j].TxType))
@@ -800,17 +812,23 @@ func (c *Client) logs(ctx context.Context, url string, filter *glf.Filter, bm bl
 	if err != nil {
 		return fmt.Errorf("making logs request: %w", err)
 	}
-	var (
-		hresp = resp[0].(*headerResp)
-		lresp = resp[1].(*logResp)
-	)
+	if len(resp) != 2 {
+		return fmt.Errorf("eth_getLogs expected 2 results got %d", len(resp))
+	}
+	hresp, hok := resp[0].(*headerResp)
+	lresp, lok := resp[1].(*logResp)
+	if !hok || !lok || hresp == nil || lresp == nil {
+		return fmt.Errorf("eth_getLogs missing result")
+	}
 	switch {
 	case hresp.Error.Exists():
-		return fmt.Errorf("rpc=eth_getLogs/eth_getBlockByNumber %w", lresp.Error)
+		return fmt.Errorf("rpc=eth_getLogs/eth_getBlockByNumber %w", hresp.Error)
 	case lresp.Error.Exists():
 		return fmt.Errorf("rpc=eth_getLogs %w", lresp.Error)
 	case hresp.Header == nil:
 		return fmt.Errorf("eth backend missing logs for block: %d", toBlock)
+	case lresp.Result == nil:
+		return fmt.Errorf("eth_getLogs missing result for blocks %d-%d", fromBlock, toBlock)
 	}
 	var logsByTx = map[key][]logResult{}
 	for i := range lresp.Result {
@@ -845,6 +863,11 @@ func (c *Client) logs(ctx context.Context, url string, filter *glf.Filter, bm bl
 		tx := b.Tx(k.b)
 		tx.PrecompHash.Write(logs[0].TxHash)
 		for i := range logs {
+			if !bytes.Equal(logs[i].BlockHash, logs[0].BlockHash) {
+				b.Unlock()
+				const tag = "eth_getLogs logs of several versions of block %d"
+				return fmt.Errorf(tag, k.a)
+			}
 			tx.Logs.Add(logs[i].Log)
 		}
 		b.Unlock()
@@ -889,6 +912,12 @@ func (c *Client) traces(ctx context.Context, url string, bm blockmap, start, lim
 		}
 		if len(res.Result) == 0 {
 			return fmt.Errorf("no rpc error but empty result")
+		}
+		for j := range res.Result {
+			if res.Result[j].BlockNum != start+i || !bytes.Equal(res.Result[j].BlockHash, res.Result[0].BlockHash) {
+				const tag = "trace_block requested %d got trace of block %d"
+				return fmt.Errorf(tag, start+i, res.Result[j].BlockNum)
+			}
 		}
 		block, ok := bm[res.Result[0].BlockNum]
 		if !ok {
